@@ -34,6 +34,10 @@ class Pt:
   b: Bits3
 
 @bitstruct
+class Flag:
+  val: Bits1
+
+@bitstruct
 class Nest:
   p: Pt
   q: Bits2
@@ -430,16 +434,54 @@ class CmpTop( Component ):
     @update
     def up_ge():
       s.ge @= s.a >= s.b
+
+# ---- FlagTop: signals whose type is a bitstruct of total width ONE (a net that is one bit wide without being
+# Bits1), through ports, registers, children and nets, next to Bits1 signals carrying the same values
+# (added after seeded change C16-E: one-bit nets dumped by the truth value of the object - every bitstruct
+# instance is truthy)
+class FlagStage( Component ):
+  def construct( s ):
+    s.in_ = InPort( Flag )
+    s.out = OutPort( Flag )
+    s.state = Wire( Flag )
+    s.raw = OutPort( Bits1 )
+    @update_ff
+    def ff():
+      s.state <<= s.in_
+    s.out //= s.state
+    @update
+    def up_raw():
+      s.raw @= s.state.val
+
+class FlagTop( Component ):
+  def construct( s ):
+    s.in_ = InPort( Flag )
+    s.b = InPort( Bits1 )
+    s.out = OutPort( Flag )
+    s.mid = Wire( Flag )
+    s.both = OutPort( Bits1 )
+    s.made = OutPort( Flag )
+    s.st = [ FlagStage() for _ in range(2) ]
+    s.st[0].in_ //= s.in_
+    s.mid //= s.st[0].out
+    s.st[1].in_ //= s.mid
+    s.out //= s.st[1].out
+    @update
+    def up_both():
+      s.both @= s.st[0].raw & s.b
+    @update
+    def up_made():
+      s.made @= Flag( s.b ^ s.st[1].raw )
 '''
 
-LIB = ["Tiny", "Small2", "TwoLevel", "StructNets", "Wide", "IfcTop", "ManyNets", "Deep", "CmpTop"]
+LIB = ["Tiny", "Small2", "TwoLevel", "StructNets", "Wide", "IfcTop", "ManyNets", "Deep", "CmpTop", "FlagTop"]
 
 # ----------------------------------------------------------------------------------------------
 # random hierarchical designs
 # ----------------------------------------------------------------------------------------------
 
 _BW = [1, 1, 2, 2, 3, 4, 4, 7, 8, 16, 33, 64, 65, 100]
-_ST = {"Pt": 4, "Nest": 10, "WideS": 73}
+_ST = {"Pt": 4, "Nest": 10, "WideS": 73, "Flag": 1}
 
 
 def _tt(t):
